@@ -199,9 +199,9 @@ CLAIMED = {
         text="Lean 4 theorems over the engine model for every rule set, request and API call sequence of any length: an "
              "interrupted phase 1-4 evaluates nothing further; with an interruption in place every later non-logging call "
              "returns exactly it and changes no state; ProcessLogging evaluates logging-phase rules only; DetectionOnly never "
-             "sets the interruption and remembers only the first would-be one; Off evaluates nothing; a phase that ends interrupted was interrupted by the last rule it evaluated, with that rule's id (C02_first); lastPhase is monotone "
+             "sets the interruption and remembers only the first would-be one; Off evaluates nothing; a phase that ends interrupted was interrupted by the last rule it evaluated, with that rule's id (C02_first); a rule that states a status reports it whatever SecDefaultAction of its phase says, one that states none inherits that phase's (C02_deny_reports_own_status, C02_inherited_status); lastPhase is monotone "
              "and a request/response phase is evaluated only if not yet reached (at most once). Tied to /repo by the `eng` "
-             "correspondence (profile api: repeated, skipped, out-of-order calls; mode switches by ctl).",
+             "correspondence (profile api: repeated, skipped, out-of-order calls; mode switches by ctl; default actions carrying a status).",
         note=_ENG_NOTE, ref="6/C02", engine="eng"),
     "C08": dict(
         text="Lean 4 theorems over the engine model for every rule list and every operator interpretation: skip:N passes "
@@ -238,7 +238,7 @@ CLAIMED = {
         ref="6/C14", engine="tf,tfchain"),
     "C15": dict(
         text="Lean 4 theorems: each modelled operator equals its declarative predicate for all arguments and inputs (substring/"
-             "prefix/suffix, integer order on Go's Atoi with clamping, '%'-escape well-formedness, byte ranges, @pm / @pmFromFile / @pmFromDataset = "
+             "prefix/suffix, integer order on Go's Atoi with clamping, '%'-escape well-formedness, @validateUtf8Encoding = "not a concatenation of standard encodings of Unicode scalar values" (both directions), byte ranges, @pm / @pmFromFile / @pmFromDataset = "
              "ASCII-case-insensitive membership incl. the length short-circuit, negation = complement; @ipMatch independent of the "
              "address spelling; @rx on the modelled RE2 fragment: the matcher is exact w.r.t. a declarative match relation for every "
              "expression and input), tied to /repo by differential execution of the real operators (`op`, `rxm`); captures TX.0-9 are "
